@@ -305,7 +305,7 @@ def probe_times(ad, extra=()):
   return pts
 
 
-def long_doc(rng, count=None):
+def long_doc(rng, count=None, untimed=False):
   """An ordinary LONG document: one division holding `count` (101..400) consecutive paragraphs (or one paragraph holding that
   many consecutive spans), begin/end back to back with an occasional gap, the container itself beginning at 0 or later, zero to
   two regions.  Sizes of this order are what real subtitle files have and what no bounded enumeration reaches."""
@@ -324,6 +324,16 @@ def long_doc(rng, count=None):
   t = 0
   for i in range(count):
     d = 2 * rng.randint(1, 3)
+    if untimed and (i == count - 1 or rng.random() < 0.03):
+      # a sibling without any timing of its own (a running label, a line break): active whenever its container is
+      if level == "p":
+        sp = add("span", add("p", holder))
+        add("text", sp, tx=1)
+      elif rng.random() < 0.5:
+        add("br", holder)
+      else:
+        add("text", add("span", holder), tx=1)
+      continue
     if level == "p":
       pp = add("p", holder, bb=t, ee=t + d, rg=(rng.randint(1, nr) if nr == 2 and rng.random() < 0.2 else 0))
       sp = add("span", pp)
